@@ -364,9 +364,9 @@ class Kernel:
         if isinstance(e, NoCurrentContext):
             return ["noCurrent"]
         if isinstance(e, ValueError):
-            return ["valueError"]
+            return ["argError"]     # (which class an invalid argument is rejected with is not the properties' business)
         if isinstance(e, TypeError):
-            return ["typeError"]
+            return ["argError"]
         if isinstance(e, FactoryError):
             return ["raisedExc exn0"]
         if isinstance(e, RuntimeError):
@@ -448,7 +448,7 @@ class Kernel:
             try:
                 ac.inject(fn)
             except TypeError:
-                return ["typeError"]
+                return ["argError"]
         if any(issubclass(w.category, UserWarning) for w in wlist):
             # inject() warns - a UserWarning, whatever its wording and whichever frame it is attributed to (stacklevel) -
             # when there is nothing to inject
